@@ -934,11 +934,230 @@ pub fn c13(args: &Args) -> i32 {
     run.finish()
 }
 
-// ---------------------------------------------------------------------------------------- C16 crash leg (filled in below)
+// ---------------------------------------------------------------------------------------- C16 crash leg
+
+use crate::e2_handler::Env;
+
+/// Catalog operations (indices into e2_kg::C16_OPS that change catalogs; no save / restart)
+const C16_CRASH_OPS: [usize; 10] = [0, 1, 2, 3, 4, 5, 6, 7, 8, 9];
+type Cat = (BTreeMap<String, String>, BTreeMap<String, String>);
+
+fn cat_of(env: &Env) -> Cat {
+    let st = env.kg_state("A");
+    (st.rules, st.schemas)
+}
+
+fn c16_exec(env: &Env, op: usize) {
+    use crate::e2_kg::C16_OPS;
+    if op == 9 {
+        let _ = env.handler.get_storage().remove_schema_in("A", "s");
+    } else {
+        let _ = env.query_program(Some("A"), C16_OPS[op]);
+    }
+}
+
+struct Rec16 {
+    recs: Vec<Rec>,
+    old_root: String,
+    ops: Vec<(usize, usize)>,
+    /// catalog observed live before op 0, after op 0, ...
+    states: Vec<Cat>,
+}
+
+fn record16(h: &[usize]) -> Result<Rec16, String> {
+    let env = Env::new("c16rec");
+    let root = env.scratch.path().to_path_buf();
+    let lp = log_path(&root);
+    env.create_kg("A");
+    let mut states = vec![cat_of(&env)];
+    for (i, o) in h.iter().enumerate() {
+        fs_mark(&root, &format!("begin {i}"));
+        c16_exec(&env, *o);
+        fs_mark(&root, &format!("ack {i} ok"));
+        states.push(cat_of(&env));
+    }
+    fs_mark(&root, "end");
+    let text = std::fs::read_to_string(&lp).unwrap_or_default();
+    let old_root = root.to_str().unwrap().to_string();
+    drop(env);
+    let _ = std::fs::remove_file(&lp);
+    let recs = parse_log(&text)?;
+    let mut ops = vec![(0usize, 0usize); h.len()];
+    for (j, r) in recs.iter().enumerate() {
+        if let Rec::Mark(t) = r {
+            let p: Vec<&str> = t.split(' ').collect();
+            match p[0] {
+                "begin" => ops[p[1].parse::<usize>().unwrap()].0 = j,
+                "ack" => ops[p[1].parse::<usize>().unwrap()].1 = j,
+                _ => {}
+            }
+        }
+    }
+    Ok(Rec16 { recs, old_root, ops, states })
+}
+
+fn explore16(h: &[usize], st: &mut CrashStats, report: &mut dyn FnMut(String, J, String)) -> Result<(), String> {
+    use crate::e2_kg::C16_OPS;
+    let rec = record16(h)?;
+    let lab = label(&rec.recs);
+    st.records += rec.recs.len() as u64;
+    let first = rec.ops.first().map(|o| o.0).unwrap_or(0);
+    let clean = build_image(&rec.recs, &lab, &crash_point(&rec.recs, &lab, rec.recs.len()), &Choice { dir_keep: usize::MAX, data: BTreeMap::new(), partial: None });
+    let mut seen: BTreeSet<u64> = BTreeSet::new();
+    let hs = h.iter().map(|o| C16_OPS[*o]).collect::<Vec<_>>().join(" ; ");
+    for crash in first..=rec.recs.len() {
+        if crash > 0 && matches!(rec.recs[crash - 1], Rec::Mark(_)) && crash != rec.recs.len() {
+            continue;
+        }
+        st.crash_points += 1;
+        // admissible catalogs: after the ops completed before the crash, optionally plus the op in flight
+        let completed = rec.ops.iter().filter(|(_, a)| *a < crash).count();
+        let in_flight = rec.ops.iter().any(|(b, a)| *b < crash && crash <= *a);
+        let mut adm = vec![rec.states[completed].clone()];
+        if in_flight {
+            adm.push(rec.states[completed + 1].clone());
+        }
+        let inflight_op = if in_flight { C16_OPS[h[completed]] } else { "between_ops" };
+        let kind = if !in_flight {
+            "between_ops"
+        } else if inflight_op.starts_with("+s") || inflight_op.starts_with("remove schema") {
+            "during_schema_update"
+        } else {
+            "during_rule_update"
+        };
+        let cp = crash_point(&rec.recs, &lab, crash);
+        let (chs, capped) = choices(&rec.recs, &cp, &lab, 128);
+        if capped {
+            st.capped_points += 1;
+        }
+        for ch in chs {
+            st.images += 1;
+            let img = build_image(&rec.recs, &lab, &cp, &ch);
+            let key = fnv(format!("{img:?}{adm:?}").as_bytes());
+            if !seen.insert(key) {
+                continue;
+            }
+            st.distinct_images += 1;
+            if img != clean {
+                st.images_differing_from_clean += 1;
+            }
+            st.recoveries += 1;
+            let scratch = Scratch::new("c16img");
+            let verdict: Option<(String, String)> = (|| {
+                if let Err(e) = materialize(&img, &rec.old_root, scratch.path()) {
+                    return Some(("machinery:materialize".to_string(), e.to_string()));
+                }
+                let r = catch_unwind(AssertUnwindSafe(|| Env::open(Scratch(scratch.path().to_path_buf()))));
+                match r {
+                    Err(p) => Some((format!("recovery_panicked:{kind}"), crate::e1::panic_msg(&p))),
+                    Ok(Err(e)) => Some((format!("store_unopenable_after_crash:{kind}"), format!("StorageEngine::new failed: {e}"))),
+                    Ok(Ok(env)) => {
+                        let kgs = env.handler.get_storage().list_knowledge_graphs();
+                        let got = cat_of(&env);
+                        std::mem::forget(std::mem::replace(&mut { env }.scratch, Scratch(PathBuf::from("/nonexistent-verif"))));
+                        if !kgs.iter().any(|k| k == "A") {
+                            // the KG itself may legitimately be missing only while its creation has not completed
+                            return if crash <= first { None } else { Some((format!("knowledge_graph_lost:{kind}"), format!("KG A is not listed after recovery: {kgs:?}"))) };
+                        }
+                        if adm.contains(&got) {
+                            None
+                        } else {
+                            let emptied = (got.0.is_empty() && adm.iter().all(|a| !a.0.is_empty())) || (got.1.is_empty() && adm.iter().all(|a| !a.1.is_empty()));
+                            let mode = if emptied { "catalog_silently_emptied" } else { "catalog_neither_old_nor_new" };
+                            Some((format!("{mode}:{kind}"), format!("recovered rules {:?} schemas {:?}; admissible {adm:?}", got.0, got.1)))
+                        }
+                    }
+                }
+            })();
+            if let Some((c, d)) = verdict {
+                report(
+                    c,
+                    json!({"leg": "crash", "history_idx": h, "history": h.iter().map(|o| C16_OPS[*o]).collect::<Vec<_>>(), "crash_after_record": crash, "dir_ops_kept": ch.dir_keep.min(cp.volatile_dir.len()), "data_choice": ch.data.values().collect::<Vec<_>>(), "partial_write_bytes": ch.partial}),
+                    format!("history [{hs}]: crash after fs record #{crash} ({:?}), in flight: {inflight_op}; {} of {} unsynced directory ops kept, data choices {:?}, partial write {:?}: {d}", rec.recs.get(crash.saturating_sub(1)).map(short_rec), ch.dir_keep.min(cp.volatile_dir.len()), cp.volatile_dir.len(), ch.data.values().collect::<Vec<_>>(), ch.partial),
+                );
+            }
+        }
+    }
+    Ok(())
+}
 
 pub fn c16_crash_leg(_args: &Args, run: &Run) {
-    run.put("crash_leg", json!("see e3::c16 (pending)"));
+    if !recorder_active() {
+        run.machinery_error("file-system recorder not active (LD_PRELOAD=shim/fsshim.so and VERIF_FS_ROOT=/dev/shm/verif- are set by ./check)".into());
+        return;
+    }
+    let max_len = if run.quick() { 2 } else { 3 };
+    let mut hist: Vec<Vec<usize>> = vec![];
+    let mut level: Vec<Vec<usize>> = vec![vec![]];
+    for _ in 0..max_len {
+        let mut nx = vec![];
+        for p in &level {
+            for o in C16_CRASH_OPS {
+                let mut q = p.clone();
+                q.push(o);
+                nx.push(q);
+            }
+        }
+        hist.extend(nx.iter().cloned());
+        level = nx;
+    }
+    run.put("crash_histories", json!(hist.len()));
+    let totals = std::sync::Mutex::new(CrashStats::default());
+    let done = run.par_for(hist.len(), threads(), |i, l| {
+        let h = &hist[i];
+        let mut st = CrashStats::default();
+        let mut found: Vec<(String, J, String)> = vec![];
+        let r = catch_unwind(AssertUnwindSafe(|| explore16(h, &mut st, &mut |c, case, d| found.push((c, case, d)))));
+        match r {
+            Ok(Ok(())) => {}
+            Ok(Err(e)) => run.machinery_error(format!("C16 crash history {h:?}: {e}")),
+            Err(p) => run.machinery_error(format!("C16 crash history {h:?}: explorer panicked: {}", crate::e1::panic_msg(&p))),
+        }
+        for (c, case, d) in found {
+            run.violation(&format!("crash:{c}"), case, d);
+        }
+        l.evaluations += st.recoveries;
+        for k in 0..st.images_differing_from_clean {
+            l.nontrivial(fnv(format!("c16/{i}/{k}").as_bytes()));
+        }
+        if run.want_sample() && i % 17 == 3 {
+            run.sample(json!({"leg": "crash", "history": h.iter().map(|o| crate::e2_kg::C16_OPS[*o]).collect::<Vec<_>>(), "fs_records": st.records, "crash_points": st.crash_points, "distinct_images": st.distinct_images}));
+        }
+        let mut t = totals.lock().unwrap();
+        t.records += st.records;
+        t.crash_points += st.crash_points;
+        t.images += st.images;
+        t.distinct_images += st.distinct_images;
+        t.recoveries += st.recoveries;
+        t.capped_points += st.capped_points;
+    });
+    let t = totals.lock().unwrap();
+    run.put("crash_histories_completed", json!(done));
+    run.put("crash_fs_records", json!(t.records));
+    run.put("crash_points", json!(t.crash_points));
+    run.put("crash_images_built", json!(t.images));
+    run.put("crash_distinct_images", json!(t.distinct_images));
+    run.put("crash_recoveries", json!(t.recoveries));
+    run.put("crash_points_with_image_cap_hit", json!(t.capped_points));
 }
-pub fn c16_replay(_args: &Args, _j: &J) -> i32 {
-    2
+
+pub fn c16_replay(_args: &Args, j: &J) -> i32 {
+    let h: Vec<usize> = serde_json::from_value(j["case"]["history_idx"].clone()).expect("history_idx");
+    let want = j["class"].as_str().unwrap_or("").trim_start_matches("crash:").to_string();
+    let mut st = CrashStats::default();
+    let mut found = vec![];
+    if let Err(e) = explore16(&h, &mut st, &mut |c, _case, d| found.push((c, d))) {
+        eprintln!("MACHINERY-ERROR: {e}");
+        return 2;
+    }
+    let hit: Vec<&(String, String)> = found.iter().filter(|(c, _)| want.is_empty() || *c == want).collect();
+    for (c, d) in hit.iter().take(3) {
+        println!("class=crash:{c} {d}");
+    }
+    if !hit.is_empty() {
+        println!("VIOLATION property=C16 replay=(re-explored history {h:?})");
+        return 1;
+    }
+    println!("replay: property holds on this history");
+    0
 }
